@@ -97,8 +97,11 @@ impl Report {
             self.samples.push(s.into());
         }
     }
+    /// known-class failures are capped separately so that they can never crowd out an unknown one
     pub fn fail(&mut self, f: Failure) {
-        if self.failures.len() < 200 {
+        let known = f.known.is_some();
+        let n = self.failures.iter().filter(|x| x.known.is_some() == known).count();
+        if n < if known { 60 } else { 200 } {
             self.failures.push(f);
         }
     }
